@@ -30,7 +30,7 @@ class C07(vlib.Spec):
                    "join outputs with empty children is finer than row equality and is only checked on the "
                    "implementation); KeyedBimorphism<_, PairBimorphism> is refuted (finding); the proposed repair "
                    "keyed_fixed is proved a bimorphism for any wrapped bimorphism.")
-    rule = ("one case = (bimorphism instance, a, da, b, db) for 17 registered instances of 6 shapes; da/db random "
+    rule = ("one case = (bimorphism instance, a, da, b, db) for 22 registered instances of 6 shapes (5 of them with the deltas in singleton / array / vec / option backed representations); da/db random "
             "perturbations of a/b, sprinkled with bottom-valued map entries; plus GHT cases: 6 GhtType! shapes x "
             "{deep join, cartesian product} on row sets over small key domains; non-trivial = a delta changes the output")
 
@@ -65,7 +65,7 @@ class C07(vlib.Spec):
     def finding_key(self, case, res):
         if "ab" not in res or case.get("k") == "ght":
             return None
-        sh, ta, tb = morph.parse_name(case["sh"])
+        sh, ta, tb, tda, tdb = morph.parse_name4(case["sh"])
         if not morph.keyed_over_pair(sh):
             return None
         # only the class the refutation describes: on every failing side, the delta carries a
@@ -74,9 +74,9 @@ class C07(vlib.Spec):
         bad_r = not res["eq_r"]
         if not (bad_l or bad_r):
             return None
-        if bad_l and not morph.has_bot_entry(ta, case["da"]):
+        if bad_l and not morph.has_bot_entry(tda, case["da"]):
             return None
-        if bad_r and not morph.has_bot_entry(tb, case["db"]):
+        if bad_r and not morph.has_bot_entry(tdb, case["db"]):
             return None
         return KEY
 
